@@ -376,3 +376,30 @@ def next_prefix(trace, bound):
             if pre_before + (1 if is_pre else 0) <= bound:
                 return [x[1] for x in trace[:k]] + [o]
     return None
+
+
+class Deepening:
+    """Iterative deepening over the pre-emption bound: every schedule with at most 1 pre-emption first, then at most 2, ... up to
+    `bound`, at most `limit` schedules in all (depth-first order visits late pre-emptions first; without deepening a small limit is
+    spent on two-pre-emption schedules near the end of the run before a single early pre-emption is ever tried)."""
+
+    def __init__(self, bound, limit):
+        self.bound = bound
+        self.limit = limit
+        self.cur = min(1, bound)
+        self.n = 0
+        self.exhausted = False
+
+    def next(self, trace):
+        """The prefix to run after the schedule whose trace is `trace`; None when done."""
+        self.n += 1
+        if self.n >= self.limit:
+            return None
+        nxt = next_prefix(trace, self.cur)
+        if nxt is not None:
+            return nxt
+        if self.cur >= self.bound:
+            self.exhausted = True
+            return None
+        self.cur += 1
+        return []  # start again from the default schedule with one more pre-emption allowed
